@@ -278,6 +278,25 @@ fn structural_mutations(syms: &[Sym], style: u8, f: &mut dyn FnMut(Mutated) -> b
                 return;
             }
         }
+        // an extra member the protocol does not define, carrying valid and invalid UTF-8 (found by the
+        // c06_handle fuzz target: serde_json skips such values without validating them; D16)
+        for (nm, extra) in [
+            ("unknown-member-utf8", &b",\"zz\":{\"k\":\"\xc3\xa9\"}"[..]),
+            ("unknown-member-bad-utf8-value", &b",\"zz\":\"\x86\""[..]),
+            ("unknown-member-bad-utf8-key", &b",\"zz\":{\"k\xff\":1}"[..]),
+            ("unknown-member-truncated-utf8", &b",\"zz\":[\"\xe2\x82\"]"[..]),
+            ("unknown-member-surrogate", &b",\"zz\":\"\xed\xa0\x80\""[..]),
+            ("unknown-member-overlong", &b",\"zz\":\"\xc0\xaf\""[..]),
+        ] {
+            let mut one = plain[mi].clone();
+            let Some(at) = one.iter().rposition(|b| *b == b'}') else { continue };
+            one.splice(at..at, extra.iter().copied());
+            let mut all = plain.clone();
+            all[mi] = one;
+            if !f(Mutated { op: format!("{}@msg{}", nm, mi), bytes: enc(&all), hit: syms[mi].name(), posclass: "protocol member" }) {
+                return;
+            }
+        }
     }
 }
 
